@@ -193,6 +193,9 @@ pub struct Damage {
     pub len: u64,
     #[serde(default)]
     pub mask: u8,
+    /// bytes set after the alteration itself: (position, value) - the CRC of the altered block recomputed by the checker
+    #[serde(default)]
+    pub extra: Vec<(u64, u8)>,
 }
 
 fn apply_damage(orig: &[u8], d: &Damage) -> Vec<u8> {
@@ -223,6 +226,11 @@ fn apply_damage(orig: &[u8], d: &Damage) -> Vec<u8> {
                 .collect();
         }
         k => panic!("unknown damage kind {k}"),
+    }
+    for (p, b) in &d.extra {
+        if (*p as usize) < v.len() {
+            v[*p as usize] = *b;
+        }
     }
     v
 }
